@@ -171,7 +171,7 @@ func run(seed int64, n int, dir string, _ []string) {
 						break steps
 					}
 				} else {
-					r.Commit()
+					r.CommitOrRollback()
 				}
 			}
 		}
